@@ -6,6 +6,8 @@ Oracle for graceful shutdown (C36); harness: harness/cmd/shutdown.
 case args: workers=<n> tt=<ns> sd=<ns> p=<ns> bto=<ns> mb=<n> nd=<n> keep=<bits>
 ops:  span <dt> <t> <sid> <root> <peer> <dest>   (ext: owner = <w>)
       hold <w> | tick <ns> | fwd | ev <sid> <dest> | txtick <ns> | stop | tickstop <ns> | txstop | gor | agent
+router cases (kind=router): rtev <sid> | inflight <sid> | stopall
+      obs: rtev: ok st=200 pend=<n>; inflight: ok; stopall: err=<nil|deadline|…> coll=<0|1> up=<0|1> peer=<0|1> st=<status,…> u=<batch>
 retry cases (kind=retry mb=<n> r=<Retry-After s> code=<429|503> lim=<one 0|1 per destination> nd=<n>): rev <sid> <dest> | radv <s> | rstop
       obs: <ok|panic|blocked> u=<batches delivered> sl=<batches asleep> early=<retries before the instant> rej=<batches refused twice>
 agent cases (kind=agent script=<o|O|p|P|f joined by '.', or ->): agnew | agadd | agtick | agsent | agstop
@@ -28,6 +30,9 @@ structure OSt where
   s : St := {}
   script : List SendOut := []     -- agent cases: the scripted OpAMP client
   u : Option USt := none          -- the usage loop of the agent under test
+  rtPend : List Nat := []         -- router cases: events accepted and pending in the upstream transmission
+  rtInfl : List Nat := []         -- … requests in flight (their event)
+  rtStopped : Bool := false
   rc : RCfg := {}                 -- retry cases: batch size, Retry-After, limited destinations
   rs : RSt := {}
 
@@ -190,6 +195,27 @@ def oStep (o : OSt) (op : List String) (exts : List (List String)) : OSt × Opti
       let pend : Int := if s'.tx.locked then -1 else ((s'.tx.pending.map (·.2.2.length)).foldl (· + ·) 0 : Nat)
       s!"pend={pend} fl=0"
   | ["gor"] => (o, some "*")
+  | ["rtev", sid] =>
+    match sid.toNat? with
+    | none => (o, some "bad-op")
+    | some sid =>
+      if o.rtStopped then (o, some "refused")
+      else ({ o with rtPend := o.rtPend ++ [sid] }, some s!"ok st=200 pend={o.rtPend.length + 1}")
+  | ["inflight", sid] =>
+    match sid.toNat? with
+    | none => (o, some "bad-op")
+    | some sid =>
+      if o.rtStopped then (o, some "refused")
+      else ({ o with rtInfl := o.rtInfl ++ [sid] }, some "ok")
+  | ["stopall"] =>
+    if o.rtStopped then (o, some "bad-op") else
+    -- Router.Stop's grace period is a minute; the harness completes the uploads 50 ms after Stop was called
+    let r := stopSeq 60000000000 (if o.rtInfl.isEmpty then none else some 50000000) stopOrder
+    let ran (c : Comp) : String := if r.1.contains c then "1" else "0"
+    let evs := o.rtPend ++ o.rtInfl
+    let u := if evs.isEmpty || !r.1.contains .upstreamTx then "-" else batchStr (0, evs)
+    ({ o with rtStopped := true, rtPend := [], rtInfl := [] },
+     some s!"err={if r.2 then "deadline" else "nil"} coll={ran .collector} up={ran .upstreamTx} peer={ran .peerTx} st={listOr "," (o.rtInfl.map fun _ => "200")} u={u}")
   | ["rev", sid, dest] =>
     match sid.toNat?, dest.toNat? with
     | some sid, some dest => retryOp o (.ev sid dest)
@@ -225,6 +251,7 @@ structure Mon where
   ups : List Nat := []             -- ids the fake Honeycomb received
   cstopped : Bool := false
   tstopped : Bool := false
+  infl : List Nat := []            -- router cases: events of the requests in flight
 
 def mkFail (sig what : String) : Fail := { prop := "C36", sig := "C36:" ++ sig, what := what }
 
@@ -355,6 +382,28 @@ def shMon (m : Mon) (op : List String) (_ : List (List String)) (obs : Option St
       if m.cstopped && m.tstopped && left != "-" then
         (m, [mkFail "goroutines-left-after-stop" s!"goroutines created by {left} are still there after both Stops"])
       else (m, [])
+    | ["rtev", sid] =>
+      match sid.toNat? with
+      | some sid => (if first == "ok" then { m with txacc := sid :: m.txacc } else m, ft)
+      | none => (m, ft)
+    | ["inflight", sid] =>
+      match sid.toNat? with
+      | some sid => (if first == "ok" then { m with infl := m.infl ++ [sid] } else m, ft)
+      | none => (m, ft)
+    | ["stopall"] =>
+      let err := (kv toks "err").getD "nil"
+      let sts := parseList ((kv toks "st").getD "-")
+      -- requests in flight that were answered 200 are accepted events too
+      let okInfl := (m.infl.zip sts).filterMap fun p => if p.2 == "200" then some p.1 else none
+      let acc := okInfl ++ m.txacc
+      let f1 := if err == "deadline" then [mkFail "stop-aborted:router-error" "startstop.Stop returned 'context deadline exceeded' from Router.Stop although the request in flight completed well within the grace period; the components after the router were never stopped"]
+        else if err != "nil" then [mkFail "stop-aborted:error" s!"startstop.Stop returned an error ({err})"] else []
+      let notStopped := (["coll", "up", "peer"].filter fun k => (kv toks k).getD "1" != "1")
+      let f2 := if !notStopped.isEmpty then [mkFail "stop-aborted:component-not-stopped" s!"after startstop.Stop these components are still running: {",".intercalate notStopped}"] else []
+      let f3 := if sts.any (· != "200") then [mkFail "inflight-request-not-answered" s!"requests in flight at shutdown were answered {",".intercalate sts}"] else []
+      let missing := acc.filter fun id => !m.ups.contains id
+      let f4 := if !missing.isEmpty then [mkFail "txstop-loses-pending-events" s!"events {natList missing} were accepted by the router before the shutdown finished and never reached upstream"] else []
+      ({ m with tstopped := true, cstopped := true }, ft ++ f1 ++ f2 ++ f3 ++ f4)
     | ["rev", sid, _] =>
       match sid.toNat? with
       | some sid => (if first == "ok" then { m with txacc := sid :: m.txacc } else m, ft ++ retryFails toks "steady")
